@@ -12,6 +12,7 @@ EXPLANATION = (
     "private; (R6) every MessageBody impl that is generic over MessageBody-bounded parameters measures its contents by calling byte_len "
     "on each such parameter (sum over elements), never by the in-memory size; the derive macro's output is checked in the thorough tier. "
     '(R4 also: Message::set_body installs exactly the body it is given and every content setter builds the body from the new value; Message::try_clone returns None when the body cannot be cloned, never a body-less message.) '
+    '(R4 also: new_non_debugable declares size_of::<T>() of the value type; R8, shared with C07.R7) channels charge the declared length undiminished. '
     "Decides these necessary conditions only; not value equality / drop counts over operation sequences.")
 ASSUMPTIONS = ["TypeId::of::<T>() identifies T", "Box::into_raw/from_raw round-trip"]
 
